@@ -35,7 +35,9 @@ SEG_RTOL = 1e-9                     # integrals of Boltzmann factor x bonds of t
 FD_FLOOR = 5e-5                     # relative floor of the central-difference comparisons
 FD_NOISE = 8.0                      # + FD_NOISE * (solver tolerance 1e-12 x pore volume) / |difference|: the profiles are converged to an ABSOLUTE density
                                     # residual, so a dilute component carries a relative noise (measured: 2e-11 particles on differences of 2e-7)
-FD_STEP_FACTOR = 1.0                # + |fd(h) - fd(h/2)| relative (measured step error; the extrapolated value is ~h^2 better)
+FD_STEP_FACTOR = 1.0                # + |E1 - E2|: disagreement of the two Richardson estimates (steps 2h,h and h,h/2) = measured error of the comparison
+FD_INCONCLUSIVE = 1e-3              # two estimates further apart than this: the re-solved profiles do not resolve the derivative at this state (convergence
+                                    # noise amplified by a soft mode of the linearised operator, or steps outside the asymptotic range) -> counted as inconclusive
 BRANCH = 0.05                       # |N(+h) + N(-h) - 2 N(0)| / |N(+h) - N(-h)| above this: neighbouring solutions are not on one smooth
                                     # branch (hysteresis / capillary condensation region) -> not decidable, listed
 HENRY_LIMIT_RTOL = 1e-4             # N/p at rho_b = 1e-11 vs Henry coefficient (worst seen 2.6e-6)
@@ -63,9 +65,13 @@ def pore_key(c):
 
 
 def richardson(pairs):
-    """pairs: [(h, value)] for h and h/2 of a quantity with error ~ h^2 -> (extrapolated, step_error)"""
-    (h1, v1), (h2, v2) = pairs
-    return (4.0 * v2 - v1) / 3.0, abs(v2 - v1)
+    """pairs: [(2h, v), (h, v), (h/2, v)] of a quantity with truncation error ~ h^2 -> (estimate, disagreement): two independent Richardson
+    extrapolations, E1 from (2h, h) (least affected by the convergence noise of the re-solved profiles, which grows like 1/h) and E2 from (h, h/2)
+    (least truncation error); their disagreement is the error estimate of the comparison itself"""
+    (h0, v0), (h1, v1), (h2, v2) = pairs
+    e1 = (4.0 * v1 - v0) / 3.0
+    e2 = (4.0 * v2 - v1) / 3.0
+    return e1, abs(e1 - e2)
 
 
 def run(ctx):
@@ -205,6 +211,7 @@ def run(ctx):
 
     # ------------------------------------------------------------------ Part D: central differences (support)
     fd_cmp = 0
+    inconclusive = []
     by_case = {c["case"]: c for c in impl["lin_cases"]}
     for f in impl["fd_cases"]:
         lin = by_case.get(f["case"], {})
@@ -214,7 +221,7 @@ def run(ctx):
             undecided.append({"fd_density_direction": key, "error": [d.get("error") for d in dd]})
         else:
             ncomp = len(dd[0]["dN"])
-            branch = max(num(d["curvature"][i]) / max(abs(num(d["dN"][i])), 1e-300) for d in dd for i in range(ncomp))
+            branch = max(num(d["curvature"][i]) / max(abs(num(d["dN"][i])), 1e-300) for d in dd[-1:] for i in range(ncomp))   # smallest step: a constant offset shows most
             if branch > BRANCH:
                 undecided.append({"fd_density_direction": key, "why": "neighbouring solutions are not on one smooth branch (|N+ + N- - 2 N0| / |N+ - N-| = %.3g): "
                                   "hysteresis / capillary condensation region, outside the quantifier" % branch})
@@ -224,8 +231,11 @@ def run(ctx):
                 ext, step = richardson(ratios)
                 tol = FD_FLOOR + FD_STEP_FACTOR * step + FD_NOISE * num(f["noise_N"]) * lin["T"] / abs(num(dd[1]["d_omega"]))
                 fd_cmp += 1
-                note_worst("gibbs_adsorption_rel", abs(ext - 1.0))
-                if not abs(ext - 1.0) <= tol:
+                if step > FD_INCONCLUSIVE:
+                    inconclusive.append({"what": "grand potential vs -N dmu", "input": key, "estimates_disagree_by": step, "ratios": ratios})
+                else:
+                    note_worst("gibbs_adsorption_rel", abs(ext - 1.0))
+                if step <= FD_INCONCLUSIVE and not abs(ext - 1.0) <= tol:
                     V.violation(ctx, "%s: grand potential of re-solved profiles changes by %.8e, -N dmu = %.8e (ratio %.6f extrapolated, tolerance %.1e)"
                                 % (f["name"], num(dd[1]["d_omega"]), num(dd[1]["minus_N_dmu"]), ext, tol),
                                 {"broken": "support (partial): Gibbs adsorption relation on re-solved profiles", "input": key, "steps": dd, "ratio": ext, "tol": tol,
@@ -236,8 +246,11 @@ def run(ctx):
                         ext, step = richardson(ratios)
                         tol = FD_FLOOR + FD_STEP_FACTOR * step + FD_NOISE * num(f["noise_N"]) / abs(num(dd[1]["dN"][i]))
                         fd_cmp += 1
-                        note_worst(what + "_fd_rel", abs(ext - 1.0))
-                        if not abs(ext - 1.0) <= tol:
+                        if step > FD_INCONCLUSIVE:
+                            inconclusive.append({"what": what + " vs re-solved profiles", "component": i, "input": key, "estimates_disagree_by": step, "ratios": ratios})
+                        else:
+                            note_worst(what + "_fd_rel", abs(ext - 1.0))
+                        if step <= FD_INCONCLUSIVE and not abs(ext - 1.0) <= tol:
                             V.violation(ctx, "%s: adsorbed amount of component %d of re-solved profiles changes by %.8e, %s predicts %.8e (ratio %.6f extrapolated, tolerance %.1e)"
                                         % (f["name"], i, num(dd[1]["dN"][i]), what, num(dd[1][pred][i]), ext, tol),
                                         {"broken": "support (partial): %s vs central differences of moles() of re-solved profiles" % what, "input": key, "component": i,
@@ -247,7 +260,7 @@ def run(ctx):
             undecided.append({"fd_temperature_direction": key, "error": [d.get("error") for d in tt]})
         else:
             ncomp = len(tt[0]["dn_dt"])
-            branch = max(num(d["curvature"][i]) / max(abs(num(d["dN_dT_fd"][i])), 1e-300) for d in tt for i in range(ncomp))
+            branch = max(num(d["curvature"][i]) / max(abs(num(d["dN_dT_fd"][i])), 1e-300) for d in tt[-1:] for i in range(ncomp))
             if branch > BRANCH:
                 undecided.append({"fd_temperature_direction": key, "why": "neighbouring solutions are not on one smooth branch (%.3g)" % branch})
             else:
@@ -256,8 +269,11 @@ def run(ctx):
                     ext, step = richardson(ratios)
                     tol = FD_FLOOR + FD_STEP_FACTOR * step + FD_NOISE * num(f["noise_N"]) / (2.0 * tt[1]["dT"]) / abs(num(tt[1]["dN_dT_fd"][i]))
                     fd_cmp += 1
-                    note_worst("dn_dt_fd_rel", abs(ext - 1.0))
-                    if not abs(ext - 1.0) <= tol:
+                    if step > FD_INCONCLUSIVE:
+                        inconclusive.append({"what": "dn_dt vs re-solved profiles", "component": i, "input": key, "estimates_disagree_by": step, "ratios": ratios})
+                    else:
+                        note_worst("dn_dt_fd_rel", abs(ext - 1.0))
+                    if step <= FD_INCONCLUSIVE and not abs(ext - 1.0) <= tol:
                         V.violation(ctx, "%s: dN/dT of component %d from re-solved profiles at constant pressure is %.8e, dn_dt returns %.8e (ratio %.6f extrapolated, tolerance %.1e)"
                                     % (f["name"], i, num(tt[1]["dN_dT_fd"][i]), num(tt[1]["dn_dt"][i]), ext, tol),
                                     {"broken": "support (partial): dn_dt (and hence the enthalpy of adsorption) vs central differences of moles() of re-solved profiles",
@@ -512,7 +528,8 @@ def run(ctx):
                        "linear_system": "|A x - rhs| <= %g + %g max|rhs|" % (LIN_ABS, LIN_REL), "dn_goal_rel": 1e-11, "enthalpy_lu_rel": LU_RTOL,
                        "segment_integrals_rel": SEG_RTOL, "stored_vs_recomputed_rel": CACHE_RTOL, "gibbs_between_states_of_one_object_rel": SEQ_GIBBS_RTOL,
                        "phase_equilibrium_omega_rel": EQUIL_RTOL,
-                       "central_differences": "Richardson (h, h/2; h = 1e-2 relative): |ratio - 1| <= %g + |ratio(h) - ratio(h/2)| + %g * 1e-12 * volume / |difference|; skipped (listed) when |N+ + N- - 2N0| > %g |N+ - N-|" % (FD_FLOOR, FD_NOISE, BRANCH),
+                       "central_differences": "steps 2h, h, h/2 (h = 1e-2 relative); two Richardson estimates E1 (2h,h), E2 (h,h/2): |E1 - 1| <= %g + |E1 - E2| + %g * 1e-12 * volume / |difference|; "
+                                              "inconclusive (counted, listed) when |E1 - E2| > %g; skipped (listed) when |N+ + N- - 2N0| > %g |N+ - N-| at the smallest step" % (FD_FLOOR, FD_NOISE, FD_INCONCLUSIVE, BRANCH),
                        "henry_limit_rel": HENRY_LIMIT_RTOL, "enthalpy_limit_rel": QST_LIMIT_RTOL,
                        "surface_tension_vs_box_rel": GAMMA_BOX_RTOL, "surface_tension_vs_grid_rel": GAMMA_GRID_RTOL,
                        "gamma(0.95Tc)/gamma(0.5Tc)": GAMMA_CRIT_RATIO, "pdgt_vs_dft_rel": PDGT_RTOL},
@@ -521,7 +538,8 @@ def run(ctx):
         "partial_not_decided_by_proof": {
             "what": "that the re-solved profiles and GMRES converge; agreement of the implicit derivatives with central differences of re-solved profiles; "
                     "the zero-pressure limit on real functionals; every planar-interface clause (box/grid independence, monotone in T, vanishing towards Tc, pDGT)",
-            "undecided_cases": undecided},
+            "undecided_cases": undecided,
+            "inconclusive_comparisons": len(inconclusive), "inconclusive": inconclusive[:12]},
         "samples": samples[:10],
         "rule": "slit pores (LJ93, Steele, hard wall, SimpleLJ93, DoubleWell; seeded parameters, sizes 12-30 A, 64-256 points); functionals PeTS, PC-SAFT "
                 "(methane m=1, propane m=2, methane+propane), FMT, gc-PC-SAFT (propane, propane+butane: bond integrals), an ideal-gas functional; "
